@@ -7,14 +7,14 @@ use proc_macro2::TokenStream;
 use quote::{format_ident, quote};
 
 use super::{
-    common::{check_ident, generate_rule_parse_function, safe_ident},
+    common::{check_ident, check_name, generate_rule_parse_function, safe_ident},
     CodegenSettings,
 };
 use crate::grammar::ExternRule;
 
 impl ExternRule {
     pub fn generate_code(&self, settings: &CodegenSettings) -> Result<(TokenStream, TokenStream)> {
-        check_ident(&self.name)?;
+        check_name(&self.name)?;
         for part in self
             .directive
             .function
